@@ -20,7 +20,9 @@ Ltac bridge := intros; cbv beta delta [gen_filter_ignore_underscores gen_ctx_is_
   m_filter_ignore_underscores m_ctx_is_ignored m_ctx_is_included m_order_drops_underscore_names m_included_action
   m_walk_is_match m_walk_order_error m_walk_checks_before_yield m_walk_leftover_error m_sync_check m_sync_keeps_skipping
   m_sync_checks_before_yield m_lj_gets_default m_lj_final_ok m_change_at m_change_offsets m_fast_path
-  m_join_key_and_payload_index m_get_data_names_first FIXED_ORDER AHEAD SYNC_AHEAD E_NOTINCL E_SEEN E_NOTIN] zeta;
+  m_join_key_and_payload_index m_get_data_names_first FIXED_ORDER AHEAD SYNC_AHEAD E_NOTINCL E_SEEN E_NOTIN
+  gen_sync_shape gen_sync_following_check gen_with_following_pairs m_sync_shape sync_shape m_sync_following_check
+  m_with_following_pairs SYNC_FOLLOWING] zeta;
   repeat match goal with b : bool |- _ => destruct b end;
   first [reflexivity | simpl in *; intuition discriminate].
 
@@ -51,6 +53,13 @@ Proof. bridge. Qed.
 Lemma b_sync_keeps_skipping : forall a b, gen_sync_keeps_skipping a b = m_sync_keeps_skipping a b.
 Proof. bridge. Qed.
 Lemma b_sync_checks_before_yield : gen_sync_checks_before_yield = m_sync_checks_before_yield.
+Proof. bridge. Qed.
+(* SynchedStream.__iter__ has the fix-4 shape: the following group goes through the same two guards before `yield data` *)
+Lemma b_sync_shape : gen_sync_shape = m_sync_shape.
+Proof. bridge. Qed.
+Lemma b_sync_following_check : forall h a b, gen_sync_following_check h a b = m_sync_following_check h a b.
+Proof. bridge. Qed.
+Lemma b_with_following_pairs : gen_with_following_pairs = m_with_following_pairs.
 Proof. bridge. Qed.
 Lemma b_lj_gets_default : forall a, gen_lj_gets_default a = m_lj_gets_default a.
 Proof. bridge. Qed.
@@ -147,6 +156,30 @@ Lemma s_sync order rest seen n p gs :
                     end)
     else ([], Raise c).
 Proof. simpl. unfold m_sync_check. destruct (mem n seen), (mem n order); reflexivity. Qed.
+(* the machine in use (m_sync_shape = 2 selects it in synched_head): own name through the guards, defaults for the missing
+   contigs, the FOLLOWING group's name through the same guards with the updated seen set, only then the group's data *)
+Lemma s_sync_fol order rest seen n p gs :
+  sync_fol name neqb P empty order rest seen ((n, p) :: gs)
+  = let c := m_sync_check (mem n seen) (mem n order) in
+    if c =? 0 then (let '(k, r) := sync_skip name neqb n rest seen in
+                    match r with
+                    | None => (repeat empty k, Raise E_INDEX)
+                    | Some (rest', seen') =>
+                        let c' := match gs with
+                                  | (n', _) :: _ => m_sync_following_check true (mem n' seen') (mem n' order)
+                                  | [] => m_sync_following_check false false false
+                                  end in
+                        if c' =? 0 then yapp (repeat empty k ++ [p]) (sync_fol name neqb P empty order rest' seen' gs)
+                        else (repeat empty k, Raise c')
+                    end)
+    else ([], Raise c).
+Proof.
+  cbn [sync_fol]. unfold check_name, m_sync_check. destruct (mem n seen), (mem n order); try reflexivity.
+  cbn [negb]. change (0 =? 0) with true. cbv iota beta zeta.
+  destruct (sync_skip name neqb n rest seen) as [k [[rest' seen']|]]; [|reflexivity].
+  destruct gs as [|[n' p'] gs']; [reflexivity|].
+  unfold m_sync_following_check, m_sync_check. destruct (mem n' seen'), (mem n' order); reflexivity.
+Qed.
 Lemma s_sync_skip n c rest seen :
   sync_skip name neqb n (c :: rest) seen
   = if m_sync_keeps_skipping true (neqb n c)
@@ -185,7 +218,7 @@ Proof. reflexivity. Qed.
 End Steps.
 Lemma s_switches :
   genome_trace_head = genome_trace (negb m_order_drops_underscore_names) m_walk_checks_before_yield
-  /\ (forall order gs, synched_head order gs
-        = if m_sync_checks_before_yield then synched_ahead bname zlist_eqb ids [] order gs
-          else synched bname zlist_eqb ids [] order gs).
-Proof. split; reflexivity. Qed.
+  /\ (forall order gs, synched_head order gs = synched_by_shape m_sync_shape order gs)
+  /\ (forall order gs, synched_by_shape 2 order gs = synched_fol bname zlist_eqb ids [] order gs)
+  /\ (forall order gs, synched_by_shape 0 order gs = synched bname zlist_eqb ids [] order gs).
+Proof. repeat split; reflexivity. Qed.
